@@ -1098,3 +1098,270 @@ def r_dtype_default_buffer(ctx, f: FunctionInfo, param: str, rule="R-DTYPE"):
         ctx.ob(rule, f, key, True, f"{n_recv} receiving store(s), all into buffers typed after `{param}`")
     else:
         ctx.ob(rule, f, key, None, "no receiving buffer found", required=False)
+
+
+# ---------------------------------------------------------------------------------------------
+_WRAPPERS = {"int", "round", "float", "abs"}
+
+
+def _strip_wrap(e):
+    while True:
+        if isinstance(e, ast.Call) and e.args and ((isinstance(e.func, ast.Name) and e.func.id in _WRAPPERS) or
+                                                   (isinstance(e.func, ast.Attribute) and e.func.attr in ("round", "rint", "int64", "int32", "floor"))):
+            e = e.args[0]
+            continue
+        return e
+
+
+def scalar_dim_expansions(f: FunctionInfo):
+    """Sites `T = [A, B]` / `T = np.array([A, B])` / 2x2 `[[A, B], [A', B']]` that turn the scalar T into the pair of local
+    dimensions, one element being T itself and the other a quotient by T.  Yields (assign, row_elts, scalar_first)."""
+    defs: dict[str, list] = {}
+    for n in walk_no_nested(f.node):
+        if isinstance(n, ast.Assign) and len(n.targets) == 1 and isinstance(n.targets[0], ast.Name):
+            defs.setdefault(n.targets[0].id, []).append(n.value)
+
+    def is_scalar(e, T):
+        e = _strip_wrap(e)
+        if isinstance(e, ast.Subscript) and isinstance(e.slice, ast.Constant) and e.slice.value == 0:  # T was [d] : T[0]
+            e = e.value
+        return isinstance(e, ast.Name) and e.id == T
+
+    def is_quot(e, T, depth=0):
+        e = _strip_wrap(e)
+        while isinstance(e, ast.Subscript):
+            e = _strip_wrap(e.value)
+        if isinstance(e, ast.BinOp) and isinstance(e.op, (ast.Div, ast.FloorDiv)):
+            return is_scalar(e.right, T)
+        if isinstance(e, ast.Name) and e.id != T and depth < 2:
+            return any(is_quot(v, T, depth + 1) for v in defs.get(e.id, []))
+        return False
+
+    out = []
+    for n in walk_no_nested(f.node):
+        if not (isinstance(n, ast.Assign) and len(n.targets) == 1 and isinstance(n.targets[0], ast.Name)):
+            continue
+        T = n.targets[0].id
+        v = n.value
+        if isinstance(v, ast.Call) and v.args and isinstance(v.func, ast.Attribute) and v.func.attr in ("array", "asarray"):
+            v = v.args[0]
+        if not isinstance(v, (ast.List, ast.Tuple)):
+            continue
+        rows = [v.elts] if not all(isinstance(x, (ast.List, ast.Tuple)) for x in v.elts) else [x.elts for x in v.elts]
+        for r in rows:
+            if len(r) != 2:
+                continue
+            s = [is_scalar(x, T) for x in r]
+            q = [is_quot(x, T) for x in r]
+            if (s[0] and q[1]) or (s[1] and q[0]):
+                out.append((n, r, bool(s[0] and q[1])))
+    return out
+
+
+def r_scalar_dim_expand(ctx, f: FunctionInfo, rule="R-KIND", chain=None):
+    """A scalar `dim` names the FIRST local dimension: it expands to [dim, total / dim], never [total / dim, dim] (the
+    list form [d_A, d_B] and the scalar form d_A must denote the same bipartition)."""
+    sites = scalar_dim_expansions(f)
+    per: dict[str, int] = {}
+    for n, r, ok in sites:
+        T = n.targets[0].id
+        per[T] = per.get(T, 0) + 1
+        key = f"scalar `{T}` expands to [{T}, total/{T}]" + (f" #{per[T]}" if per[T] > 1 else "")
+        ctx.ob(rule, f, key, ok, f"`{unparse(n)[:70]}`" if ok else
+               f"`{unparse(n)[:80]}` puts the quotient first: a scalar `{T}` = d then means d_B = d, while the list form and the documentation take "
+               "the scalar as the first subsystem's dimension -- for unequal local dimensions the two forms denote different bipartitions", n, chain=chain)
+    return len(sites)
+
+
+# ---------------------------------------------------------------------------------------------
+def _array_params(f: FunctionInfo):
+    out = []
+    for p in f.params:
+        ann = unparse(p.annotation) if p.annotation is not None else ""
+        if "ndarray" in ann or "list[np" in ann:
+            out.append(p.name)
+    return out
+
+
+def cross_param_stores(model, f: FunctionInfo, params=None):
+    """Item assignments `B[...] = V` where the array B was created by arithmetic on array parameters S (so its dtype is
+    that of S) and V depends on an array parameter outside S.  Returns (n_buffers, [(store, alloc, S, extra)])."""
+    og = origins(f)
+    aps = set(params if params is not None else _array_params(f))
+    if len(aps) < 2:
+        return 0, []
+    bufs = {}
+    for n in walk_no_nested(f.node):
+        if isinstance(n, ast.Assign) and len(n.targets) == 1 and isinstance(n.targets[0], ast.Name):
+            v = n.value
+            # arithmetic / copy / slice of parameters (numpy result_type of the operands); allocation calls with dtype are not this rule's
+            if isinstance(v, ast.Call):
+                k = model.resolve_call(f, v).key or ""
+                if not (isinstance(v.func, ast.Attribute) and v.func.attr in ("copy", "astype") or k in ("numpy.copy", "numpy.array", "numpy.asarray", "copy.copy", "copy.deepcopy")):
+                    continue
+                if any(kw.arg == "dtype" for kw in v.keywords) or (isinstance(v.func, ast.Attribute) and v.func.attr == "astype"):
+                    continue
+            elif not isinstance(v, (ast.BinOp, ast.Subscript, ast.UnaryOp)):
+                continue
+            direct = {x.id for x in ast.walk(v) if isinstance(x, ast.Name)} & aps
+            # a float literal / true division already promotes to float: no narrowing to int
+            floaty = any(isinstance(x, ast.Constant) and isinstance(x.value, (float, complex)) for x in ast.walk(v)) or \
+                any(isinstance(x, ast.BinOp) and isinstance(x.op, ast.Div) for x in ast.walk(v))
+            if direct and not floaty:
+                bufs.setdefault(n.targets[0].id, []).append((n, direct))
+    found = []
+    for n in walk_no_nested(f.node):
+        if isinstance(n, ast.Assign) and isinstance(n.targets[0], ast.Subscript):
+            b = n.targets[0].value
+            while isinstance(b, ast.Subscript):
+                b = b.value
+            if isinstance(b, ast.Name) and b.id in bufs:
+                vs = (og.of(n.value) & aps)
+                for alloc, S in bufs[b.id]:
+                    extra = vs - S
+                    if extra:
+                        found.append((n, alloc, S, extra))
+    return len(bufs), found
+
+
+def r_dtype_cross_param(ctx, f: FunctionInfo, params=None, rule="R-DTYPE", chain=None):
+    """Scoped to functions whose array parameters are independent numeric data families (not dimension vectors)."""
+    nb, found = cross_param_stores(ctx.model, f, params)
+    key = "no array typed by one parameter receives another parameter's values by item assignment"
+    if found:
+        st, alloc, S, extra = found[0]
+        ctx.ob(rule, f, key, False, f"`{unparse(alloc)[:60]}` has the dtype of {sorted(S)}; `{unparse(st)[:70]}` stores values depending on {sorted(extra)} into it: "
+               "with an integer (or real) first family and real (or complex) second family the store truncates silently", st, chain=chain)
+    else:
+        ctx.ob(rule, f, key, True, f"{nb} parameter-typed array(s), none receives another parameter's data", chain=chain)
+    return nb
+
+
+# ---------------------------------------------------------------------------------------------
+_CACHE_DECORATORS = {"lru_cache", "cache", "cached_property", "memoize", "memoized"}
+
+
+def r_fresh_result(ctx, f: FunctionInfo, rule="R-EFFECT", chain=None):
+    """A function that returns a mutable array / list hands out a fresh object on every call: it is not memoised (a
+    functools cache returns the SAME ndarray to every caller, so one caller's in-place normalisation corrupts every
+    later result), and does not return module-level mutable state."""
+    bad = None
+    for d in getattr(f.node, "decorator_list", []):
+        x = d.func if isinstance(d, ast.Call) else d
+        nm = x.attr if isinstance(x, ast.Attribute) else x.id if isinstance(x, ast.Name) else ""
+        if nm in _CACHE_DECORATORS:
+            bad = d
+    ann = unparse(f.node.returns) if getattr(f.node, "returns", None) is not None else ""
+    mutable = any(k in ann for k in ("ndarray", "list", "dict", "matrix", "csr", "dia_")) or ann == ""
+    if bad is not None and mutable:
+        ctx.ob(rule, f, "every call returns a fresh array (no memoisation of mutable results)", False,
+               f"`@{unparse(bad)}` memoises a function returning `{ann or 'an unannotated value'}`: all callers with equal arguments share one mutable object, "
+               "so an in-place update by one caller changes what later calls return", bad, chain=chain)
+    else:
+        ctx.ob(rule, f, "every call returns a fresh array (no memoisation of mutable results)", True, "not memoised", chain=chain)
+
+
+# ---------------------------------------------------------------------------------------------
+def sparse_unsafe_subscripts(f: FunctionInfo, name: str):
+    """Typestate of `name` in {D (dense), S (sparse), M (may be either)} through the structured statements of f; returns
+    (n_subscripts_checked, [Subscript nodes evaluated while the value may still be a scipy.sparse matrix]).
+    scipy's dia_matrix (what sparse.eye / iden(is_sparse=True) produce) does not support indexing."""
+    bad, count = [], [0]
+
+    def is_sparse_test(t):
+        """-> polarity-normalised: ('issparse', positive?) or None"""
+        neg = False
+        while isinstance(t, ast.UnaryOp) and isinstance(t.op, ast.Not):
+            neg = not neg
+            t = t.operand
+        if isinstance(t, ast.Call) and ((isinstance(t.func, ast.Attribute) and t.func.attr in ("issparse", "isspmatrix")) or
+                                        (isinstance(t.func, ast.Name) and t.func.id in ("issparse", "isspmatrix"))):
+            if t.args and isinstance(t.args[0], ast.Name) and t.args[0].id == name:
+                return not neg
+        return None
+
+    def densifies(v):
+        if isinstance(v, ast.Call):
+            if isinstance(v.func, ast.Attribute) and v.func.attr in ("toarray", "todense") and isinstance(v.func.value, ast.Name) and v.func.value.id == name:
+                return True
+            if isinstance(v.func, ast.Attribute) and v.func.attr in ("array", "asarray") and v.args and isinstance(v.args[0], ast.Call) and densifies(v.args[0]):
+                return True
+        return False
+
+    def scan_expr(e, st):
+        if e is None:
+            return
+        for n in ast.walk(e):
+            if isinstance(n, ast.Subscript) and isinstance(n.value, ast.Name) and n.value.id == name and isinstance(n.ctx, ast.Load):
+                count[0] += 1
+                if st != "D":
+                    bad.append(n)
+
+    def join(a, b):
+        if a is None:
+            return b
+        if b is None:
+            return a
+        return a if a == b else "M"
+
+    def block(stmts, st):
+        for s in stmts:
+            if st is None:
+                return None
+            st = stmt(s, st)
+        return st
+
+    def stmt(s, st):
+        if isinstance(s, (ast.Return, ast.Raise)):
+            scan_expr(getattr(s, "value", None) or getattr(s, "exc", None), st)
+            return None
+        if isinstance(s, ast.If):
+            pol = is_sparse_test(s.test)
+            scan_expr(s.test, st)
+            if pol is None:
+                a, b = block(s.body, st), block(s.orelse, st)
+            else:
+                a = block(s.body, "S" if pol else "D")
+                b = block(s.orelse, "D" if pol else "S") if s.orelse else ("D" if pol else "S")
+                if st == "D":  # already dense: the test cannot make it sparse again
+                    a = block(s.body, "D") if not pol else a
+                    b = "D" if not s.orelse else b
+            return join(a, b)
+        if isinstance(s, (ast.For, ast.While)):
+            scan_expr(s.iter if isinstance(s, ast.For) else s.test, st)
+            out = st
+            for _ in range(2):
+                e = block(s.body, out)
+                out = join(out, e)
+            return out
+        if isinstance(s, (ast.With, ast.Try)):
+            out = block(s.body, st)
+            for h in getattr(s, "handlers", []):
+                out = join(out, block(h.body, st))
+            return out
+        if isinstance(s, ast.Assign) and len(s.targets) == 1 and isinstance(s.targets[0], ast.Name) and s.targets[0].id == name:
+            if densifies(s.value):
+                return "D"
+            scan_expr(s.value, st)
+            return st
+        if isinstance(s, (ast.FunctionDef, ast.ClassDef)):
+            return st
+        for ch in ast.iter_child_nodes(s):
+            if isinstance(ch, ast.expr):
+                scan_expr(ch, st)
+        return st
+
+    block(f.node.body, "M")
+    return count[0], bad
+
+
+def r_sparse_safe(ctx, f: FunctionInfo, name: str, rule="R-KIND", chain=None):
+    n, bad = sparse_unsafe_subscripts(f, name)
+    tests = any(isinstance(x, ast.Call) and "issparse" in unparse(x.func) for x in walk_no_nested(f.node))
+    key = f"`{name}` is indexed only after it is known to be dense"
+    if not tests:
+        ctx.ob(rule, f, key, None, f"the function never tests `{name}` for sparsity", required=False, chain=chain)
+        return
+    ctx.ob(rule, f, key, not bad, f"{n} subscript(s), all on the dense representation" if not bad else
+           f"`{unparse(bad[0])}` runs while `{name}` may still be a scipy.sparse matrix (the function itself tests issparse({name}) elsewhere): "
+           "dia_matrix -- what iden(.., is_sparse=True) returns -- is not subscriptable", bad[0] if bad else None, chain=chain)
